@@ -66,6 +66,9 @@ func classify(err error) (tok string, limit uint64) {
 	if err == io.EOF {
 		return "EOF", 0
 	}
+	if err == io.ErrShortWrite {
+		return "ShortWrite", 0 // io.Copy's own verdict on a destination that wrote short
+	}
 	for k, e := range injected {
 		if err == e {
 			return k, 0
@@ -972,9 +975,12 @@ func recordIO(args []string) error {
 	}
 	// Standard-library readers (growing buffers, pipes, ...) as the wrapped reader.
 	sh := recordStd(tr, res, nh+dh)
+	// Long deterministic histories: hundreds of empty answers interleaved with data.
+	lh := recordLong(tr, res, nh+dh+sh)
+	sh += lh
 	if err := tr.Close(); err != nil {
 		return err
 	}
 	return res.Close(map[string]any{"events": tr.N, "histories": nh + dh + sh, "reads": nReads, "writes": nWrites,
-		"driver_histories": dh, "std_reader_histories": sh, "optional_interfaces": optional})
+		"driver_histories": dh, "std_reader_histories": sh - lh, "long_histories": lh, "optional_interfaces": optional})
 }
